@@ -107,12 +107,7 @@ func (k *Key) Order(o2 mast.Key) int {
 			return 0
 		}
 		if v2.Type == v1proto.Type_REAL {
-			if float64(v.Int) < v2.Real {
-				return order(flip, -1)
-			} else if float64(v.Int) > v2.Real {
-				return order(flip, 1)
-			}
-			return 0
+			return order(flip, compareIntReal(v.Int, v2.Real))
 		}
 		return order(flip, -1)
 	}
@@ -145,6 +140,29 @@ func (k *Key) Order(o2 mast.Key) int {
 	}
 	panic(fmt.Errorf("key comparison %T, %T in unexpected order",
 		k.Value(), k2.Value()))
+}
+
+// compareIntReal compares an INTEGER with a REAL exactly, the way SQLite
+// does: converting the integer to float64 is lossy beyond 2^53 and made
+// neighbouring keys compare equal.
+func compareIntReal(i int64, r float64) int {
+	if r < -9223372036854775808.0 {
+		return 1
+	}
+	if r >= 9223372036854775808.0 {
+		return -1
+	}
+	if y := int64(r); i < y {
+		return -1
+	} else if i > y {
+		return 1
+	}
+	if s := float64(i); s < r {
+		return -1
+	} else if s > r {
+		return 1
+	}
+	return 0
 }
 
 func orderType(v, v2 *v1proto.SQLiteValue) (*v1proto.SQLiteValue, *v1proto.SQLiteValue, bool) {
